@@ -6,6 +6,7 @@
    are in Model/Style.v; the conclusions are the predicates of Model/TreeValid.v that the system-level
    oracle evaluates on the dump of every tree. *)
 From RV Require Import Model.Base Model.StylePrims Gen.LeafStyle Model.TreeValid Model.Style Proofs.Style.
+From RV Require Import Model.GeomPrims Model.ObbPrims Gen.LeafObb Model.Obb Proofs.Obb.
 Local Open Scope Q_scope.
 
 (* --- stroke ------------------------------------------------------------------------------- *)
@@ -149,6 +150,68 @@ Theorem C04_units_absolute_context_free : forall sq sq' n u nd aid aid' un un' d
   = convert_length sq' {| len_number := n; len_unit := u |} nd aid' un' {| st_opt := dpi; st_view_box := vb' |}.
 Proof. exact units_absolute_context_free. Qed.
 Print Assumptions C04_units_absolute_context_free.
+
+(* --- transforms --------------------------------------------------------------------------- *)
+(* usvg stores products of transforms (abs_transform, `use` placement, bounding-box mapping of resolved paint
+   servers) without checking the result: the product of two finite transforms can leave the f32 range.
+   Known class `computed-transform-not-finite` (witness: scale(1e30) inside scale(1e30)). *)
+Theorem C04_transform_product_refuted :
+  exists a b, KnownClass_product_overflow a b = true /\ valid_ts (xts_concat a b) = false.
+Proof.
+  destruct concat_finite_refuted as (a & b & H1 & H2). exists a, b. split; [exact H1|].
+  unfold valid_ts. rewrite H2. apply andb_false_r.
+Qed.
+Print Assumptions C04_transform_product_refuted.
+
+Theorem C04_transform_product_finite : forall a b,
+  KnownClass_product_overflow a b = false -> valid_ts (xts_concat a b) = true.
+Proof.
+  intros a b H. unfold valid_ts. rewrite (concat_finite_guarded a b H).
+  unfold xts_concat, ts_fin.
+  destruct (ts_is_identity a); [reflexivity|]. destruct (ts_is_identity b); [reflexivity|].
+  destruct (negb (ts_has_skew a) && negb (ts_has_skew b)); reflexivity.
+Qed.
+Print Assumptions C04_transform_product_finite.
+
+(* --- no objectBoundingBox unit remains ------------------------------------------------------ *)
+(* Paint::to_user_coordinates always leaves user-space units (in place or in the clone) ... *)
+Theorem C04_resolved_paint_units : forall d B id, g_units (resolve_def d B id) = UserSpaceOnUse.
+Proof. reflexivity. Qed.
+Print Assumptions C04_resolved_paint_units.
+
+(* ... every holder of a shared objectBoundingBox definition ends with a user-space definition or without paint ... *)
+Theorem C04_units_resolved_users : forall taken d0 users,
+  g_units d0 = ObjectBoundingBox -> In (g_id d0) taken -> Forall (fun u => u_h u = Some 0%nat) users ->
+  forall ctr, let '(st, out) := postpass taken [d0] ctr users in
+    Forall (fun u => match user_def st u with Some d => g_units d = UserSpaceOnUse | None => True end) out.
+Proof.
+  intros taken d0 users Hobb Hsrc Hat ctr.
+  pose proof (shared_users taken d0 users Hobb Hsrc Hat ctr) as K.
+  destruct (postpass taken [d0] ctr users) as [st out]. destruct K as [K _].
+  clear - K. induction K as [|a b l l' R F IH]; constructor; [|exact IH].
+  destruct R as [_ R]. unfold user_def.
+  destruct (to_non_zero_rect (u_box a)).
+  - destruct R as (h & d & Eh & En & Eu & _). rewrite Eh, En. exact Eu.
+  - rewrite R. exact I.
+Qed.
+Print Assumptions C04_units_resolved_users.
+
+(* ... but paints inside the content of a definition that has two or more references are never visited (F25):
+   known class `shared-def-nested-obb` *)
+Theorem C04_no_obb_remains_refuted :
+  exists taken heap ctr pats users,
+    Forall (fun p => pt_units p = UserSpaceOnUse) pats /\
+    KnownClass_shared_nested heap pats users = true /\
+    nested_resolved (postpass_nested taken heap ctr pats users) users = false.
+Proof. exact nested_refuted. Qed.
+Print Assumptions C04_no_obb_remains_refuted.
+
+Theorem C04_no_obb_remains : forall taken heap ctr pats users,
+  Forall (fun p => pt_units p = UserSpaceOnUse) pats ->
+  KnownClass_shared_nested heap pats users = false ->
+  nested_resolved (postpass_nested taken heap ctr pats users) users = true.
+Proof. exact nested_guarded. Qed.
+Print Assumptions C04_no_obb_remains.
 
 (* --- non-vacuity -------------------------------------------------------------------------- *)
 (* the F23 witness 0.1, 0.10000004, 0.05 (exact f32 values) now normalises to a sorted list *)
